@@ -138,6 +138,7 @@ def run(ctx):
             mode = k % 5
             spec = vcfgen.rich_file(
                 rng, ploidies=(2,) if mode < 3 else (1, 2, 3), records_lack_gt=(mode == 2),
+                shuffle_contig_blocks=(k % 2 == 1), ncontig=(rng.choice([2, 3, 5]) if k % 2 == 1 else None),
                 nrec=rng.choice([1, 3, 8, 20, 60] + ([300] if ctx.thorough else [])))
             if not spec["records"]:
                 continue
